@@ -1365,7 +1365,10 @@ def run(ctx):
                        "dictionary / attach / copy / chunks of blocks / finder writes, and chunk machines with chunks up to ZSTD_CHUNKSIZE_MAX; (2) real contexts: "
                        "one context reused over ~50 frames per scenario (all 9 strategies, row finder, LDM, prefixes, CDict attach/copy/load, parameter changes, "
                        "time-warped indices near the reset threshold and ZSTD_CURRENT_MAX), every transition predicted by the model, every frame decoded and "
-                       "compared with a fresh context. A case's signature = (tie, build knob, opcode / op kind, which branch conditions held); "
+                       "compared with a fresh context; R3: block-level sessions (ZSTD_compressBlock) and bufferless frames with an attached CDict whose segments "
+                       "are contiguous / at a new address / cover the previous one, predicted block by block; (3) reuse fuzzer c15_explore (direct oracles only): "
+                       "25 frames per scenario on one reused context + one ZSTD_copyCCtx destination, every entry point and table-carrying feature switched "
+                       "between frames. A case's signature = (tie, build knob, opcode / op kind, which branch conditions held); "
                        "distinct_nontrivial = number of distinct signatures.")
 
     # ---- verdict
